@@ -72,13 +72,14 @@ _CMP = {_np.greater: _op.gt, _np.greater_equal: _op.ge, _np.less: _op.lt,
         _np.logical_and: _land, _np.logical_or: _lor,
         _np.logical_not: _lnot}
 _KEEP_DECL = set()
-_INT_ARITH = {_np.multiply, _np.add, _np.subtract}
+_INT_ARITH = {_np.multiply, _np.add, _np.subtract, _np.power}
 
 
-def _int_result_type(inputs):
+def _int_result_type(inputs, wide_ok=False):
     """dtype numpy would compute in when every operand is an integer and
     at least one is an array of a declared integer type narrower than 64
-    bits; None otherwise (floating point, or wide enough)"""
+    bits (any width with wide_ok: powers overflow 64 bits at realistic
+    sizes, 2097152**3 > 2**63); None otherwise (floating point)"""
     typed = []
     for x in inputs:
         if isinstance(x, SArr):
@@ -102,7 +103,7 @@ def _int_result_type(inputs):
     if not typed:
         return None
     dt = _np.result_type(*typed)
-    if dt.kind not in 'iu' or dt.itemsize >= 8:
+    if dt.kind not in 'iu' or (dt.itemsize >= 8 and not wide_ok):
         return None
     return dt
 
@@ -181,7 +182,7 @@ class SArr(_np.ndarray):
             r.decl = self.decl if ufunc in _KEEP_DECL else None
         if method == '__call__' and ufunc in _INT_ARITH and \
                 isinstance(r, SArr):
-            dt = _int_result_type(inputs)
+            dt = _int_result_type(inputs, wide_ok=(ufunc is _np.power))
             if dt is not None:
                 # arithmetic carried out in a narrow integer type (typed
                 # integer arrays combined with Python ints, which numpy
